@@ -1464,6 +1464,31 @@ func init() {
 				return true
 			})
 		}
+		// ---- the active table is fetched per lookup ----
+		// every call of Table.Lookup (6 arguments) / Table.LookupHost (2 arguments) outside package route: the text
+		// of the receiver. The model's lookup starts with `tblSnap` = one route.GetTable() per lookup; a table captured
+		// once outside the request path would keep answering from a replaced table (no stream drives main.go's closures).
+		var recvs []string
+		for _, dir := range []string{"", "proxy", "proxy/tcp"} {
+			for _, f := range x.files(dir) {
+				ast.Inspect(f, func(n ast.Node) bool {
+					call, ok := n.(*ast.CallExpr)
+					if !ok {
+						return true
+					}
+					se, ok := call.Fun.(*ast.SelectorExpr)
+					if !ok {
+						return true
+					}
+					if (se.Sel.Name == "Lookup" && len(call.Args) == 6) || (se.Sel.Name == "LookupHost" && len(call.Args) == 2) {
+						recvs = append(recvs, x.src(se.X))
+					}
+					return true
+				})
+			}
+		}
+		sort.Strings(recvs)
+		x.defStrList("tableLookupReceivers", recvs)
 		sort.Strings(pm)
 		sort.Strings(pc)
 		sort.Strings(pa)
